@@ -29,6 +29,9 @@ CHECKS = {
  "C08": dict(level="other", technique="abstract expansion of the three operator builders for all 22 operators and all owned/reference forms; operand-root / reference-flag reference; name tables vs core::ops",
    text="For all 10 binary operators, their 10 assign forms and Neg/Not the expansion is one impl per form of [false,true]^2 (binary) / [false,true] (assign, unary), none twice; in each, field k is one call `<[&]Tk as Trait<[&]Tk>>::method([&]self.k, [&]rhs.k)` with the left operand first and `&` exactly as the form says in header, UFCS types, operands and where-predicates (assign: `&mut self.k`); from_str/to_str/to_func_name/`Assign` suffix are mutually consistent and equal the core::ops table.",
    note="core::ops names are language constants. Operator semantics of field types are not evaluated.", ref="5 C08"),
+ "C09": dict(level="other", technique="abstract interpretation of the impl-item builder over base kind x base form x requested set for all 10 operators; forwarding-call terms vs the documented rules; helper decision models",
+   text="The builder for user `impl` items is evaluated for every operator, base kind (Op / OpAssign), base form (lhs by ref x rhs by ref, symbolic) and requested set (Op, OpAssign, both, dump): the list of generated impls (all forms but the base; op= per the three documented cases; Op from OpAssign as { a op= b; a }; OpAssign from OpAssign refused), each header, Output, the user's Self-expanded generics/where-clause, and the single forwarding call `<[&]T as Op<[&]Rhs>>::op(adapt(self), adapt(rhs))` with operands in order and clone / reborrow exactly as received-vs-needed dictates; change_owned is checked as a truth table, reference-form detection as `&T` without lifetime and mut, Rhs default as Self.",
+   note="The user's impl body is not analysed. Trait/method names come from the operator tables checked by DM-op-tables.", ref="5 C09"),
  "C10": dict(level="other", technique="abstract expansion of the Debug builders with two unrolled fields (all ignore/transparent combinations) read back as method-chain terms",
    text="With the field list unrolled to two distinct symbolic fields, every combination of ignore/transparent marks is a path: >= 2 transparent marks are refused and only they; otherwise the body is the builder chain on the formatter parameter debug_struct (named) / debug_tuple (otherwise)(stringify!(name)).field([stringify!(field),] &place) for exactly the non-ignored fields in order .finish(), or exactly Debug::fmt(field, f) for the transparent field; enums: one arm per variant in order.",
    note="core::fmt's builders are trusted to print what the std derive prints for the same calls.", ref="5 C10"),
